@@ -381,8 +381,13 @@ class Sim:
                 first = {}
                 for t, b in pairs:
                     first.setdefault(t, b)
-                if first.get(typ) == kb:
+                # known defect: a name of a multi-host line is skipped by the duplicate test when the name before
+                # it was removed (so it is never the first name of its line)
+                tails = [nf[1:] for nf, t, b in spec_entries(self.files[i]) if (t, b) == (typ, kb) and len(nf) > 1]
+                if first.get(typ) == kb and any(n in tail for tail in tails):
                     buckets.add("multi-host-line-hostnames-mutated-while-iterating")
+                elif first.get(typ) == kb:
+                    buckets.add("duplicate-not-recognised")
                 elif (typ, kb) in pairs:
                     buckets.add("second-key-of-same-type-not-recognised-as-duplicate")
                 else:
